@@ -71,6 +71,71 @@ def rebuild_footer(index_size, flags2):
     return struct.pack("<I", zlib.crc32(body) & 0xFFFFFFFF) + body + b"YZ"
 
 
+
+# ---------------------------------------------------------------------------------------------
+# building Streams from Block parts (Block Headers re-encoded by hand: empty Blocks, extra filters)
+# ---------------------------------------------------------------------------------------------
+
+def parse_block_header(d, off):
+    """Returns dict(hsize, csize|None, usize|None, filters=[(id, props bytes)])."""
+    hsize = (d[off] + 1) * 4
+    flags = d[off + 1]
+    p = off + 2
+    cs = us = None
+    if flags & 0x40:
+        cs, p = vli_decode(d, p)
+    if flags & 0x80:
+        us, p = vli_decode(d, p)
+    filters = []
+    for _ in range((flags & 3) + 1):
+        fid, p = vli_decode(d, p)
+        n, p = vli_decode(d, p)
+        filters.append((fid, bytes(d[p:p + n])))
+        p += n
+    return dict(hsize=hsize, csize=cs, usize=us, filters=filters)
+
+
+def build_block_header(csize, usize, filters):
+    body = bytearray([(len(filters) - 1) | (0x40 if csize is not None else 0) | (0x80 if usize is not None else 0)])
+    if csize is not None:
+        body += vli_encode(csize)
+    if usize is not None:
+        body += vli_encode(usize)
+    for fid, props in filters:
+        body += vli_encode(fid) + vli_encode(len(props)) + props
+    total = 1 + len(body) + 4
+    total += (-total) % 4
+    h = bytearray([total // 4 - 1]) + body
+    h += bytes(total - 4 - len(h))
+    return bytes(h) + struct.pack("<I", zlib.crc32(bytes(h)) & 0xFFFFFFFF)
+
+
+def block_parts(d, st, k):
+    """(header, compressed data, check, usize) of Block k of the parsed Stream."""
+    b = st["blocks"][k]
+    cs = st["check_size"]
+    # layout: Block Header | Compressed Data | Block Padding | Check; Unpadded Size = header + data + check
+    end = b["off"] + b["total"]
+    return (bytes(d[b["off"]:b["off"] + b["hsize"]]), bytes(d[b["off"] + b["hsize"]:b["off"] + b["unpadded"] - cs]),
+            bytes(d[end - cs:end]), b["usize"])
+
+
+def empty_check(check_id):
+    n = CHECK_SIZES[check_id]
+    return hashlib.sha256(b"").digest() if check_id == 10 else bytes(n)      # CRC32 / CRC64 of no data are zero
+
+
+def assemble_stream(header12, footer_flags, parts):
+    """parts: [(block header, compressed data, check field, uncompressed size)] -> a complete Stream."""
+    out = bytearray(header12)
+    recs = []
+    for h, data, chk, us in parts:
+        blk = h + data
+        out += blk + bytes((-len(blk)) % 4) + chk
+        recs.append((len(blk) + len(chk), us))
+    idx = rebuild_index(recs)
+    return bytes(out) + idx + rebuild_footer(len(idx), footer_flags)
+
 # ---------------------------------------------------------------------------------------------
 # payload data
 # ---------------------------------------------------------------------------------------------
@@ -314,6 +379,66 @@ class Corpus:
         cat("cat-sized+corruptsmall+sized", [bytes(a), bytes(s[:st["blocks"][0]["off"] + st["blocks"][0]["hsize"] + 2]) + bytes([s[st["blocks"][0]["off"] + st["blocks"][0]["hsize"] + 2] ^ 0x40]) + bytes(s[st["blocks"][0]["off"] + st["blocks"][0]["hsize"] + 3:]), bytes(a)],
             kind="concat-corrupt", valid=False, **common)
         cat("cat-x86+sized", [bytes(xb), bytes(a)], kind="concat", valid=True, sized=True, bcj=True, nblocks=mx["nblocks"] + ma["nblocks"], usize=mx["usize"] + ma["usize"])
+
+        # ---- a valid Stream (or two) followed, possibly after Stream Padding, by >= 12 bytes that are not a Stream Header:
+        #      with LZMA_CONCATENATED this is LZMA_DATA_ERROR whatever LZMA_TELL_* flag fired on the first Stream
+        sh, msh = b("t3-sha256-mixed")
+        junk12, junk20 = b"\xfd7zXZ\x01" + b"JUNK!!", b"this is not a Stream"
+        for tag, first, m1 in (("crc64", a, ma), ("none", s, ms), ("sha256", sh, msh)):
+            gm = dict(sized=True, bcj=False, nblocks=m1["nblocks"], usize=m1["usize"], valid=False, kind="concat-garbage")
+            cat("cat-%s+junk12" % tag, [bytes(first), junk12], **gm)
+            cat("cat-%s+junk20" % tag, [bytes(first), junk20], **gm)
+            cat("cat-%s+pad8+junk12" % tag, [bytes(first), bytes(8), junk12], **gm)
+            cat("cat-%s+%s+junk20" % (tag, tag), [bytes(first), bytes(first), junk20], **dict(gm, nblocks=2 * m1["nblocks"], usize=2 * m1["usize"]))
+        cat("cat-crc64+pad4+none+pad4+junk12", [bytes(a), bytes(4), bytes(s), bytes(4), junk12], sized=True, bcj=False,
+            nblocks=ma["nblocks"] + ms["nblocks"], usize=ma["usize"] + ms["usize"], valid=False, kind="concat-garbage")
+        # the same with a Check ID this liblzma does not support (ID 2, four bytes like CRC32): LZMA_TELL_UNSUPPORTED_CHECK fires
+        c32, mc = b("t2-crc32-big")
+        u = bytearray(c32)
+        stc = parse_stream(bytes(c32))
+        u[7] = (u[7] & 0xF0) | 2
+        u[8:12] = struct.pack("<I", zlib.crc32(bytes(u[6:8])) & 0xFFFFFFFF)
+        u[stc["footer_off"]:] = rebuild_footer(stc["index_size"], bytes(u[6:8]))
+        um = dict(sized=True, bcj=False, nblocks=mc["nblocks"], usize=mc["usize"])
+        cat("unsupcheck", [bytes(u)], valid=True, kind="concat", **um)
+        cat("cat-unsupcheck+junk12", [bytes(u), junk12], valid=False, kind="concat-garbage", **um)
+        cat("cat-unsupcheck+unsupcheck+junk20", [bytes(u), bytes(u), junk20], valid=False, kind="concat-garbage",
+            sized=True, bcj=False, nblocks=2 * mc["nblocks"], usize=2 * mc["usize"])
+
+        # ---- Blocks that produce no output: empty Blocks (the Block encoder API can write them, xz never does) and Blocks
+        #      rejected at their first byte, as last / interior / only Block; meant to be decoded into an output buffer of
+        #      EXACTLY the total size (entry flag `exact`)
+        d32 = bytes(c32)
+        hdr12, fl2 = d32[:12], d32[6:8]
+        p0, p1 = block_parts(d32, stc, 0), block_parts(d32, stc, 1)
+        filt = parse_block_header(d32, stc["blocks"][0]["off"])["filters"]
+        empty = (build_block_header(1, 0, filt), b"\x00", empty_check(stc["check"]), 0)
+        bad0 = (p1[0], bytes([0x03]) + p1[1][1:], p1[2], p1[3])          # 0x03 is not an LZMA2 control byte
+        for name, parts, ok in (("e-big+empty", [p0, empty], True), ("e-empty", [empty], True), ("e-big+bad0", [p0, bad0], False),
+                                ("e-empty+big", [empty, p0], True), ("e-big+empty+big", [p0, empty, p1], True),
+                                ("e-big+empty+empty", [p0, empty, empty], True), ("e-big+big+empty", [p0, p1, empty], True),
+                                ("e-bad0", [bad0], False), ("e-big+big+bad0", [p0, p1, bad0], False)):
+            us = sum(q[3] for q in parts if q is not bad0)
+            self.add(name, assemble_stream(hdr12, fl2, parts), kind="no-output-block", valid=ok, concatenated=False, sized=True,
+                     bcj=False, nblocks=len(parts), usize=us, exact=True)
+
+        # ---- a Block (with both size fields, so threaded) whose filter chain passes Block Header decoding and the memory usage
+        #      check but is refused when the Block decoder is initialised: ARM BCJ with a start offset that is not a multiple of 4.
+        #      As the first Block and as the third (a worker that has never decoded anything gets it).
+        da = bytes(a)
+        sta = parse_stream(da)
+        if len(sta["blocks"]) >= 3:
+            pa = [block_parts(da, sta, k) for k in range(3)]
+
+            def misaligned(q):
+                hd = parse_block_header(q[0], 0)
+                return (build_block_header(hd["csize"], hd["usize"], [(0x07, struct.pack("<I", 2))] + hd["filters"]), q[1], q[2], q[3])
+            am = dict(kind="bad-filter-init", valid=False, concatenated=False, sized=True, bcj=False)
+            self.add("arm-misaligned-first", assemble_stream(da[:12], da[6:8], [misaligned(pa[0]), pa[1], pa[2]]), nblocks=3, usize=0, **am)
+            self.add("arm-misaligned-third", assemble_stream(da[:12], da[6:8], [pa[0], pa[1], misaligned(pa[2])]), nblocks=3,
+                     usize=pa[0][3] + pa[1][3], **am)
+            self.add("arm-misaligned-second", assemble_stream(da[:12], da[6:8], [pa[0], misaligned(pa[1]), pa[2]]), nblocks=3,
+                     usize=pa[0][3], **am)
 
         # ---- one Stream that mixes Blocks with and without size fields (threaded <-> direct mode inside a Stream)
         def splice(name, first, second, **kw):
